@@ -1001,7 +1001,12 @@ func (t *fnTrans) frameCond(name string, st *State) Term {
 		for _, r := range refs {
 			ex += fmt.Sprintf(" (not (= fr %s))", r)
 		}
-		return fmt.Sprintf("(forall ((fr Int)) (! (=> (and (<= fr %s)%s) (= (select %s fr) (select %s_0 fr))) :pattern ((select %s fr))))", t.get(t.entrySt, "alloc"), ex, cur, name, cur)
+		a0 := t.get(t.entrySt, "alloc")
+		if sv.Kind == "elems" {
+			// array-typed fields live at the negative index -(ref*1024+id): those of objects allocated by this call are fresh too
+			ex += fmt.Sprintf(" (or (>= fr 0) (<= (div (- 0 fr) 1024) %s))", a0)
+		}
+		return fmt.Sprintf("(forall ((fr Int)) (! (=> (and (<= fr %s)%s) (= (select %s fr) (select %s_0 fr))) :pattern ((select %s fr))))", a0, ex, cur, name, cur)
 	}
 	return fmt.Sprintf("(= %s %s_0)", cur, name)
 }
